@@ -15,6 +15,7 @@ RULE = ('fields NY 1..4 x NX 2..7; "exact" stream: integer grids times 2^ue (bin
         'so 2..5 x 2..5 grids do not exist in this format; padding 0..a few bytes, or >= 108 in the bigpad stream), blank or NUL padding, written by a Python '
         'reference encoder (compared byte for byte with the Coq encoder, decoded by the Coq decoder) and read by arlpackedbit: variable list, level list, times '
         'and every unpacked field compared exactly with the Coq model of the reader and with the ideal view of the content; separate streams: two columns / two rows, '
+        'thin large grids (file-large: NX or NY 1000..3100 with the other 2..4, thousands in the grid-id letters; both >= 1000 would need files of megabytes and is not generated), '
         'key shared by surface and upper level (region 6), writearlpackedbit on an in-memory file (output compared byte for byte with the Gallina writer and decoded by the reference decoder). '
         'foreign-* (8%): fields packed by a reference packer with the ORIGINAL exponent rule (largest difference up to 128 quanta, codes may wrap), decoded by the library unpack only. '
         'Corpus: the witnesses of the five repaired defects.')
@@ -123,6 +124,8 @@ def impl(case):
         return impl_foreign(case)
     if case['kind'].startswith('file-'):
         return impl_file(case)
+    if case['kind'] == 'write-large':
+        return impl_write_large(case)
     if case['kind'].startswith('write'):
         return impl_write(case)
     import numpy as np
@@ -165,6 +168,8 @@ def coq_term(case, obs):
         return coq_term_foreign(case, obs)
     if case['kind'].startswith('file-'):
         return coq_term_file(case, obs)
+    if case['kind'] == 'write-large':
+        return None
     if case['kind'].startswith('write'):
         return coq_term_write(case, obs)
     ev = _exact_view(case, obs)
@@ -260,7 +265,7 @@ SFC_KEYS = ['PRSS', 'T02M', 'U10M', 'V10M', 'SHGT', 'TPP1', 'P   ', 'MSLP']
 LAY_KEYS = ['TEMP', 'UWND', 'VWND', 'WWND', 'HGTS', 'RELH', 'Q1  ', 'SPHU']
 SFC_TEXTS = ['   0.0', '    0.', '1.0000', '   1.0', '0.0000']
 LAY_TEXTS = ['1000.0', ' 925.0', ' 850.0', ' 700.5', '  500.', '0.9980', '.99500', '0.9000', ' .8500', '  20.0', '  10.5']
-FILE_KINDS = ['file-ok'] * 8 + ['file-nulpad'] * 2 + ['file-ragged'] * 3 + ['file-bigpad'] * 2 + ['file-narrow'] * 2 + ['file-dupkey'] + ['write'] * 2
+FILE_KINDS = ['write-large'] + ['file-large'] * 2 + ['file-ok'] * 8 + ['file-nulpad'] * 2 + ['file-ragged'] * 3 + ['file-bigpad'] * 2 + ['file-narrow'] * 2 + ['file-dupkey'] + ['write'] * 2
 
 
 def _lenh(levels):
@@ -269,15 +274,19 @@ def _lenh(levels):
 
 def gen_file(rng, tier):
     import datetime
-    kind = rng.choice(FILE_KINDS)
+    kind = rng.choice(FILE_KINDS + (['file-large'] * 6 if tier == 'search' else []))
     nt = rng.randint(1, 3)
     nlay = rng.choice([0, 1, 1, 2, 2, 3])
-    if kind in ('file-ragged', 'file-dupkey', 'write'):
+    if kind == 'file-large':
+        nt, nlay = 1, rng.choice([0, 0, 1])
+    if kind == 'write-large':
+        nt, nlay = 1, 1
+    if kind in ('file-ragged', 'file-dupkey', 'write', 'write-large'):
         nlay = max(nlay, 2 if kind == 'file-ragged' else 1)
     sfct = rng.choice(SFC_TEXTS)
     used = {float(sfct)}
-    levels = [dict(text=sfct, keys=rng.sample(SFC_KEYS, rng.randint(1, 3)))]
-    laykeys = rng.sample(LAY_KEYS, rng.randint(1, 3))
+    levels = [dict(text=sfct, keys=rng.sample(SFC_KEYS, 1 if kind in ('file-large', 'write-large') else rng.randint(1, 3)))]
+    laykeys = rng.sample(LAY_KEYS, 1 if kind in ('file-large', 'write-large') else rng.randint(1, 3))
     for _ in range(nlay):
         while True:
             t = rng.choice(LAY_TEXTS)
@@ -295,7 +304,12 @@ def gen_file(rng, tier):
     lenh = _lenh(levels)
     # the format needs nx*ny >= LENH (single-record index header); padding 0.. a few bytes, or >= 108 (bigpad)
     need = lenh + (108 if kind == 'file-bigpad' else 0)
-    if kind == 'file-narrow':
+    if kind in ('file-large', 'write-large'):
+        # 1000 or more points in one direction: thousands go into the grid-id letters, NX/NY fields hold the rest
+        nx, ny = rng.choice([1000, 1001, 1003, 1999, 2000, 2005, 3100, rng.randint(1000, 3100)]), rng.choice([2, 2, 2, 3, 4])
+        if rng.random() < 0.5:
+            nx, ny = ny, nx
+    elif kind == 'file-narrow':
         nx, ny = 2, -(-need // 2) + rng.choice([0, 0, 1])
         if rng.random() < 0.5:
             nx, ny = ny, nx
@@ -309,7 +323,7 @@ def gen_file(rng, tier):
     for i in range(nt):
         d = d0 + datetime.timedelta(hours=step * i)
         times.append([d.year % 100, d.month, d.day, d.hour, ff])
-    D = rng.choice([1, 3, 50, 1000])
+    D = rng.choice([1, 3, 50, 1000]) if kind not in ('file-large', 'write-large') else rng.choice([1, 3])
     fields = []
     for t in range(nt):
         ft = []
@@ -339,7 +353,8 @@ def gen_file(rng, tier):
         fields.append(ft)
     fixed = 'TEST' + '%3d' % rng.choice([0, 6]) + '%2d' % 0 + ''.join('%7.2f' % v for v in [
         90, 0, rng.choice([1.0, 0.5, 0.25]), rng.choice([1.0, 0.5, 2.5]), 0, 0, 0, 1, 1, rng.choice([-90.0, 20.5, 40.0]), rng.choice([0.0, -125.25, 100.0]), 0])
-    return dict(kind=kind, nx=nx, ny=ny, pad=0 if kind == 'file-nulpad' else 32, grid=rng.choice(['99', ' 1', '12']),
+    grid = rng.choice(['99', ' 1', '12']) if kind not in ('file-large', 'write-large') else chr(64 + nx // 1000) + chr(64 + ny // 1000)
+    return dict(kind=kind, nx=nx, ny=ny, pad=0 if kind == 'file-nulpad' else 32, grid=grid,
                 vsys2='%2d' % rng.randint(1, 4), fixed=fixed, times=times, levels=levels, fields=fields)
 
 
@@ -427,7 +442,7 @@ def ref_encode(periods):
         zero = '%14.7E' % 0.0
         idx = p['time'] + '%2d' % 0 + p['grid'] + 'INDX' + '%4d' % 0 + zero + zero
         assert len(idx) == 50
-        idx += p['fixed'] + '%3d%3d%3d' % (p['nx'], p['ny'], nz) + p['vsys2'] + '%4d' % lenh
+        idx += p['fixed'] + '%3d%3d%3d' % (p['nx'] % 1000, p['ny'] % 1000, nz) + p['vsys2'] + '%4d' % lenh
         assert len(idx) == 158, len(idx)
         out += idx.encode('ascii') + table.encode('ascii') + bytes(p['pad'])
         for li, l in enumerate(p['levels']):
@@ -628,6 +643,8 @@ def coq_term_write(case, obs):
 
 
 def file_region(case):
+    if case['kind'] == 'write-large':
+        return 7
     if case['nx'] < 2 or case['ny'] < 2:
         return 5
     if set(case['levels'][0]['keys']) & set(k for l in case['levels'][1:] for k in l['keys']):
@@ -635,7 +652,54 @@ def file_region(case):
     return 0
 
 
+def impl_write_large(case):
+    """writer on a grid with >= 1000 points in a direction: write, then read the file back with arlpackedbit"""
+    import os, shutil, tempfile
+    import numpy as np
+    o = impl_write(dict(case, kind='write'))
+    data = bytes(o['bytes'])
+    d = tempfile.mkdtemp(dir=os.path.join(C.VERIF, '.work'))
+    try:
+        path = os.path.join(d, 'w.arl')
+        with open(path, 'wb') as fh:
+            fh.write(data)
+        res = dict(hdr_nx=data[143:146].decode('latin1'), hdr_ny=data[146:149].decode('latin1'), grid=data[12:14].decode('latin1'), size=len(data))
+        try:
+            from PseudoNetCDF.noaafiles._arl import arlpackedbit
+            f = arlpackedbit(path)
+            res['readback'] = dict(nx=len(f.dimensions['x']), ny=len(f.dimensions['y']))
+            worst = 0.0
+            for li, l in enumerate(case['levels']):
+                for vi, k in enumerate(l['keys']):
+                    a = np.asarray(f.variables[k])
+                    x = np.array(case['fields'][0][li][vi], dtype='d')
+                    got = (a[0] if li == 0 else a[0, li - 1]).astype('d')
+                    rmax = max(_int_rmax(case['fields'][0][li][vi]), 1)
+                    q = 2.0 ** (_nexp_rel(rmax, True) - 7)
+                    worst = max(worst, float(np.abs(got - x).max()) / q)
+            res['max_err_quanta'] = worst
+            del f
+        except Exception as e:
+            res['readback'] = 'raises %s: %s' % (type(e).__name__, str(e)[:100])
+        return res
+    finally:
+        shutil.rmtree(d, ignore_errors=True)
+
+
 def py_check_file(case, obs):
+    if case['kind'] == 'write-large':
+        # no Gallina writer for these sizes (wf_winput: NX, NY <= 999): judged by the read-back only
+        why = []
+        if 'raises' in obs:
+            why.append('writearlpackedbit raised %s' % obs.get('raises'))
+        else:
+            if obs['hdr_nx'] != '%3d' % (case['nx'] % 1000) or obs['hdr_ny'] != '%3d' % (case['ny'] % 1000):
+                why.append('header NX/NY fields %r %r are not the sizes modulo 1000' % (obs['hdr_nx'], obs['hdr_ny']))
+            if not isinstance(obs['readback'], dict):
+                why.append('file written for a %dx%d grid cannot be read back: %s' % (case['nx'], case['ny'], obs['readback']))
+            elif (obs['readback']['nx'], obs['readback']['ny']) != (case['nx'], case['ny']) or obs.get('max_err_quanta', 9) > 0.5:
+                why.append('read back %r, error %s quanta' % (obs['readback'], obs.get('max_err_quanta')))
+        return dict(s_ok=not why, region=7, why='; '.join(why))
     """region of the case (mirror of Corr.C20.region_file) and exact-representability of what was read;
     the S and F verdicts of file cases come from Coq"""
     region = file_region(case)
